@@ -125,6 +125,17 @@ Theorem C04_held_until_released_lossy : forall l s t,
 Proof. exact held_until_released_d. Qed.
 Print Assumptions C04_held_until_released_lossy.
 
+(* ---- lock(timeout) reports the truth -------------------------------------------------------------- *)
+(* [lock_retry s p t gaps]: lock(timeout>0) as a bounded retry of ACQUIRE with other proxies acting in
+   between; every ACQUIRE it sends is answered before it returns, the result is the last answer.  Whatever
+   happens in between: it reports True exactly when the object is owned by its token at that moment (and
+   then the proxy remembers the token); after False the object is NOT owned by the token it asked with. *)
+Theorem C04_lock_timeout_reports_truth : forall gaps s p t,
+  (snd (lock_retry s p t gaps) = true <-> owner (fst (lock_retry s p t gaps)) = Some t) /\
+  (snd (lock_retry s p t gaps) = true -> ptok (fst (lock_retry s p t gaps)) p = Some t).
+Proof. exact lock_retry_truth. Qed.
+Print Assumptions C04_lock_timeout_reports_truth.
+
 (* ---- only the owner gets through ------------------------------------------------------------ *)
 Theorem C04_gate : forall o t,
   method_gate o t = true <-> o = None \/ (exists w, o = Some w /\ t = Some w).
@@ -313,3 +324,10 @@ Example C04_example_lost_idempotent_grant :
   /\ no_release_d (fst (sys_run_d init_sys [(OLock 0 tA, true)]))
                   [(OLock 1 tA, false); (OIsLocked 2, true); (OLock 2 tB, true); (OCall 2 8, true)] tA.
 Proof. vm_compute. repeat split; try (intro H; exact H). Qed.
+
+(* lock(timeout) by proxy 1 while proxy 0 holds the lock and releases it during the second gap *)
+Example C04_example_lock_retry :
+  lock_retry (fst (sys_run init_sys [OLock 0 tA])) 1 tB [[OCall 0 1]; [OUnlock 0 None]; [OCall 0 2]] =
+  (fst (sys_run init_sys [OLock 0 tA; OLock 1 tB; OCall 0 1; OLock 1 tB; OUnlock 0 None; OLock 1 tB]), true)
+  /\ snd (lock_retry (fst (sys_run init_sys [OLock 0 tA])) 1 tB [[OCall 0 1]; [OCall 0 2]]) = false.
+Proof. vm_compute. split; reflexivity. Qed.
